@@ -287,11 +287,10 @@ impl RenetServer {
         }
         client.disconnect();
 
-        if self.connections.remove(&client_id).is_some() {
-            self.events.push_back(ServerEvent::ClientDisconnected {
-                client_id,
-                reason: DisconnectReason::DisconnectedByClient,
-            });
+        if let Some(connection) = self.connections.remove(&client_id) {
+            // Keep the first reason if the server side was already disconnected (same as remove_connection)
+            let reason = connection.disconnect_reason().unwrap_or(DisconnectReason::DisconnectedByClient);
+            self.events.push_back(ServerEvent::ClientDisconnected { client_id, reason });
         }
     }
 
